@@ -31,6 +31,7 @@ static const char *const stop_clauses[] = { "result-status", "result-timeout", "
 struct cfg {
   int expired; /* the deadline has already passed when the stop sequence starts */
   int prefail; /* a failed start carrying a deadline precedes the real one on the same handle */
+  int polled;   /* before the call, reproc_poll has already reported the handle's deadline as expired */
   int timejump; /* the clock may jump forward by 5 ms at one of the library's clock reads (preemption, a stepped wall clock) */
   int a[3], t[3];
   int deadline; /* ms, 0 none */
@@ -402,7 +403,7 @@ static void evaluate(int kind, int r, const char *where)
  * a free run cannot reproduce is a zero-timeout look at a child that a signal has just been sent to: how fast a signal kills is up to the kernel. */
 static int free_run_comparable(void)
 {
-  if (C.faults || C.prefail || C.is == IS_WAITFAIL || C.timejump) return 0;
+  if (C.faults || C.prefail || C.is == IS_WAITFAIL || C.timejump || C.polled) return 0;
   if (C.is != IS_RUNNING) return !(C.deadline > 0 && !C.expired && C.cb == CB_EXITS); /* the free run waits for the child's own exit: the deadline passes */
   struct slot s[3];
   int64_t tau[4];
@@ -516,6 +517,15 @@ static void run_cfg(const char *prop_unused)
     }
   }
   if (C.expired) vk_advance(5);
+  if (C.polled) {
+    /* the caller polls (as drain does) until the deadline is reported; only then does it stop / destroy */
+    int so = vk_cfg.sched_on;
+    vk_cfg.sched_on = 0;
+    reproc_event_source src = { P, REPROC_EVENT_OUT | REPROC_EVENT_EXIT, 0 };
+    int pr = hx_poll(&src, 1, REPROC_INFINITE);
+    vk_cfg.sched_on = so;
+    if (!(pr == 1 && (src.events & REPROC_EVENT_DEADLINE))) vk_finish(OUT_INFRA, "the poll before the stop returned %d events %x", pr, (unsigned) src.events);
+  }
   vk_faults_armed = 1;
   t0 = vk_now();
   if (!vk_cfg.passthru) S->free_run_ok = free_run_comparable();
@@ -588,12 +598,28 @@ enum { D_NULL, D_NEVER_STARTED, D_FAILED_START, D_INVALID_OPTIONS, ND };
 #define NPREFAIL (NCB * 3 * 2)
 #define NINFDL (NCB * 2 * 2) /* the deadline option given as REPROC_INFINITE, the library's own word for "none" */
 #define NTJ (NCB * 2 * 2)    /* a clock that jumps at one of the library's reads, for the policies that look at the deadline */
-static long c15_n(int tier) { return stop_n_mode(1, tier) + ND + NPREFAIL + NINFDL + NTJ; }
+#define NPOLLED (3 * 2 * 2) /* the deadline has been reported by reproc_poll before the stop / destroy (child: dies on TERM, handler, ignores) */
+static long c15_n(int tier) { return stop_n_mode(1, tier) + ND + NPREFAIL + NINFDL + NTJ + NPOLLED; }
 static void c15_run(int tier, long cfg)
 {
   long n = stop_n_mode(1, tier);
   if (cfg < n) {
     decode(1, tier, cfg, &C); /* the destroy half of the space; the stop half belongs to C07 */
+    run_cfg("C15");
+    return;
+  }
+  if (cfg >= n + ND + NPREFAIL + NINFDL + NTJ) {
+    long v = cfg - n - ND - NPREFAIL - NINFDL - NTJ;
+    memset(&C, 0, sizeof C);
+    C.deadline = 3;
+    C.polled = 1;
+    C.cb = 1 + (int) (v % 3); /* not the child that exits by itself: the poll would report its exit */
+    v /= 3;
+    static const int pol4[2][6] = { { A_NOOP, A_NOOP, A_NOOP, 0, 0, 0 }, { A_WAIT, A_KILL, A_NOOP, -2, -1, 0 } };
+    for (int i = 0; i < 3; i++) { C.a[i] = pol4[v % 2][i]; C.t[i] = pol4[v % 2][3 + i]; }
+    v /= 2;
+    C.via = v ? VIA_DESTROY : VIA_STOP;
+    C.is = IS_RUNNING;
     run_cfg("C15");
     return;
   }
